@@ -41,9 +41,9 @@ add("a2_seq_step_16", "msgpack", desc="A2 with input <= 16 B", bounds="input <= 
     covers=["A2 three elements fill the slice"], tier="thorough", props=["C04", "C18"], timeout=1800, mem_gb=12,
     assumptions=A_ASM, replay="msgpack")
 add("a3_map_step", "msgpack",
-    desc="total_map_size: two runs of `pairs` elements, the second on the bytes after the first, same depth; size = sum",
-    bounds="input <= 8 B; pairs any u32; depth any usize", functions=A_FUN,
-    covers=["A3 both runs non-empty", "A3 second run fails"], props=["C04", "C18", "C02", "C03"], timeout=900, mem_gb=8,
+    desc="total_map_size against the contract of next_value_size only (however the implementation walks the entries): 2 * pairs values are sized, each on exactly the bytes after the earlier ones and one level deeper than the map; size = sum; an entry's error is propagated; Truncated exactly when the bytes run out early; a huge declared count does not loop",
+    bounds="input <= 8 B; pairs any u32; depth any usize >= 1", functions=A_FUN,
+    covers=["A3 two entries fill the slice", "A3 huge declared count is rejected without looping"], props=["C04", "C18", "C02", "C03"], timeout=900, mem_gb=12,
     assumptions=A_ASM, replay="msgpack")
 add("a4_nvs_full_d1", "msgpack",
     desc="whole recursion without stubs at depth limit 1 equals the reference sizer (every scalar/ext/str/bin width; collections rejected for depth or truncation)",
